@@ -157,6 +157,8 @@ def gen(rng, tier):
     # the runtime visits first (mutually defaulting settings are the open known finding D17 and are left out)
     from . import c08
     for c in c08.gen(rng.fork("refs"), "quick"):
+        if c.get("k") != "eval":
+            continue                # C08's hand-written kinds (recursive target types) are its own business
         if any(r.get("r") == "view" for r in c["reads"]) and rng.chance(0.5 if tier == "quick" else 1.0):
             c["repeat"] = 8 if tier == "quick" else 24
             c["_tag"] = "order/refs-" + c["_tag"]
